@@ -301,6 +301,10 @@ func mkBin(op Op, x, y *Term) *Term {
 		if y.isConst() && y.val == 1 {
 			return x
 		}
+		if y.isConst() && y.val != 0 && x.op == OpZext && y.val <= mask(x.args[0].w) && y.val&(y.val-1) != 0 {
+			in := x.args[0]
+			return mkZext(mkBin(OpUDiv, in, mkConst(y.val, in.w)), w)
+		}
 		if y.isConst() && y.val != 0 && y.val&(y.val-1) == 0 {
 			k := 0
 			for (uint64(1) << uint(k)) != y.val {
@@ -311,6 +315,10 @@ func mkBin(op Op, x, y *Term) *Term {
 	case OpURem:
 		if y.isConst() && y.val != 0 && y.val&(y.val-1) == 0 {
 			return mkBin(OpAnd, x, mkConst(y.val-1, w))
+		}
+		if y.isConst() && y.val != 0 && x.op == OpZext && y.val <= mask(x.args[0].w) {
+			in := x.args[0]
+			return mkZext(mkBin(OpURem, in, mkConst(y.val, in.w)), w)
 		}
 	}
 	return mk(op, w, []*Term{x, y}, 0, 0, 0, "")
@@ -509,11 +517,152 @@ func mkEq(x, y *Term) *Term {
 	return mk(OpEq, 0, []*Term{x, y}, 0, 0, 0, "")
 }
 
+// termUB returns an upper bound of t read as an unsigned number (cheap, syntactic).
+var ubMemo = map[*Term]uint64{}
+
+func termUB(t *Term) uint64 {
+	if t.w == 0 {
+		return 1
+	}
+	if v, ok := ubMemo[t]; ok {
+		return v
+	}
+	m := mask(t.w)
+	r := m
+	switch t.op {
+	case OpConst:
+		r = t.val
+	case OpZext:
+		r = termUB(t.args[0])
+	case OpURem:
+		if t.args[1].isConst() && t.args[1].val > 0 {
+			r = t.args[1].val - 1
+		}
+		if a := termUB(t.args[0]); a < r {
+			r = a
+		}
+	case OpUDiv:
+		if t.args[1].isConst() && t.args[1].val > 0 {
+			r = termUB(t.args[0]) / t.args[1].val
+		}
+	case OpAnd:
+		a, b := termUB(t.args[0]), termUB(t.args[1])
+		if a < b {
+			r = a
+		} else {
+			r = b
+		}
+	case OpOr, OpXor:
+		a, b := termUB(t.args[0]), termUB(t.args[1])
+		if b > a {
+			a = b
+		}
+		k := uint64(1)
+		for k <= a && k != 0 {
+			k <<= 1
+		}
+		if k != 0 && k-1 < r {
+			r = k - 1
+		}
+	case OpAdd:
+		a, b := termUB(t.args[0]), termUB(t.args[1])
+		if s := a + b; s >= a && s <= m {
+			r = s
+		}
+	case OpMul:
+		a, b := termUB(t.args[0]), termUB(t.args[1])
+		if a == 0 || b == 0 {
+			r = 0
+		} else if a <= m/b {
+			r = a * b
+		}
+	case OpLShr:
+		if t.args[1].isConst() && t.args[1].val < 64 {
+			r = termUB(t.args[0]) >> t.args[1].val
+		} else {
+			r = termUB(t.args[0])
+		}
+	case OpExtract:
+		if t.b == 0 {
+			if a := termUB(t.args[0]); a < r {
+				r = a
+			}
+		} else if t.b < 64 {
+			if a := termUB(t.args[0]) >> uint(t.b); a < r {
+				r = a
+			}
+		}
+	case OpConcat:
+		hi, lo := t.args[0], t.args[1]
+		if lo.w < 64 && t.w <= 64 {
+			h := termUB(hi)
+			if h <= (m >> uint(lo.w)) {
+				if v := h<<uint(lo.w) | mask(lo.w); v < r {
+					r = v
+				}
+			}
+		}
+	case OpIte:
+		a, b := termUB(t.args[1]), termUB(t.args[2])
+		if b > a {
+			a = b
+		}
+		r = a
+	}
+	if r > m {
+		r = m
+	}
+	ubMemo[t] = r
+	return r
+}
+
 func mkCmp(op Op, x, y *Term) *Term {
 	if x.w != y.w {
 		panic("mkCmp: width mismatch")
 	}
 	w := x.w
+	// cheap range reasoning against constants
+	if y.isConst() && !x.isConst() {
+		ub := termUB(x)
+		switch op {
+		case OpUlt:
+			if ub < y.val {
+				return tTrue
+			}
+		case OpUle:
+			if ub <= y.val {
+				return tTrue
+			}
+		case OpSlt, OpSle:
+			if sext64(y.val, w) >= 0 && ub <= mask(w)>>1 {
+				// both non-negative: same as unsigned
+				if op == OpSlt {
+					return mkCmp(OpUlt, x, y)
+				}
+				return mkCmp(OpUle, x, y)
+			}
+		}
+	}
+	if x.isConst() && !y.isConst() {
+		ub := termUB(y)
+		switch op {
+		case OpUlt: // c < y
+			if ub <= x.val {
+				return tFalse
+			}
+		case OpUle:
+			if ub < x.val {
+				return tFalse
+			}
+		case OpSlt, OpSle:
+			if sext64(x.val, w) >= 0 && ub <= mask(w)>>1 {
+				if op == OpSlt {
+					return mkCmp(OpUlt, x, y)
+				}
+				return mkCmp(OpUle, x, y)
+			}
+		}
+	}
 	if x.isConst() && y.isConst() {
 		switch op {
 		case OpUlt:
